@@ -4,7 +4,8 @@
    pairwise hypotheses [dumps_sep] / [H_sep] written in the statements.
    State after the fix commits cee2988 (from_dict restores tuples), e582408 (categories written as
    a plain dict), ddb8814 (ModelHash encodes systems in name order), 30e26dc (generic read) and
-   876afb2 (== of systems without dose): the guards those defects required are gone. *)
+   876afb2 (== of systems without dose), eb87ce1 (ModelHash sorts the two mappings): the guards those
+   defects required are gone. *)
 From Coq Require Import QArith ZArith List Bool Arith String.
 From PV Require Import C12.Model C12.Proofs.
 Local Open Scope string_scope.
@@ -266,6 +267,22 @@ Theorem hash_order_blind :
     stmts_eq G (m_statements G m) l' = true ->
     key G dumps digest H ds (with_statements G m l') = key G dumps digest H ds m.
 Proof. exact key_order_blind. Qed.
+
+(* hash_content_order_blind (eb87ce1 added the two mappings): the key sees neither the order in
+   which a system was built nor the order in which dependent variables and observation
+   transformations were entered: replacing statements and the two mappings by ones that == calls
+   equal keeps the key.  (NoDup conditions: a dict has distinct keys, with distinct texts.) *)
+Theorem hash_content_order_blind :
+  forall G, engine_ok G -> forall dumps digest (H : string -> digest) ds (m : model G) l' dv' ot',
+    forallb (stmt_ok G) (m_statements G m) = true -> forallb (stmt_ok G) l' = true ->
+    forallb (stmt_names_distinct G) (m_statements G m) = true ->
+    NoDup (map fst (m_depvars G m)) -> NoDup (map (depvar_key G) (m_depvars G m)) ->
+    NoDup (map fst (m_obstrans G m)) -> NoDup (map (obstrans_key G) (m_obstrans G m)) ->
+    stmts_eq G (m_statements G m) l' = true ->
+    map_eqb (expr_eqb G) Z.eqb (m_depvars G m) dv' = true ->
+    map_eqb (expr_eqb G) (expr_eqb G) (m_obstrans G m) ot' = true ->
+    key G dumps digest H ds (with_content G m l' dv' ot') = key G dumps digest H ds m.
+Proof. exact key_content_order_blind. Qed.
 
 (* The encoding order itself: equal systems are encoded identically ... *)
 Theorem compartmental_system_encoding_order_blind :
